@@ -7,6 +7,7 @@ import (
 	"strconv"
 	"strings"
 	"sync"
+	"time"
 
 	"github.com/conduitio/conduit-commons/opencdc"
 	"github.com/conduitio/conduit-connector-protocol/pconnector"
@@ -91,6 +92,8 @@ type srcPlugin struct {
 	stopCh   chan struct{}
 	lastSent int // last seq handed to the engine by this instance, -1 none
 	opened   bool
+	// ackDone is closed when the ack receiver goroutine has logged everything it received.
+	ackDone chan struct{}
 }
 
 func newSrcPlugin(w *World, spec *SourceSpec, idx int) *srcPlugin {
@@ -181,7 +184,12 @@ func (p *srcPlugin) Run(ctx context.Context, stream pconnector.SourceRunStream) 
 	server := stream.Server()
 
 	// ack receiver: runs until the stream ends.
+	ackDone := make(chan struct{})
+	p.emitMu.Lock()
+	p.ackDone = ackDone
+	p.emitMu.Unlock()
 	go func() {
+		defer close(ackDone)
 		for {
 			req, err := server.Recv()
 			if err != nil {
@@ -293,7 +301,18 @@ func (p *srcPlugin) Teardown(ctx context.Context, _ pconnector.SourceTeardownReq
 		p.stopped = true
 		close(p.stopCh)
 	}
+	ackDone := p.ackDone
 	p.emitMu.Unlock()
+	if ackDone != nil {
+		// The engine tears the plugin down after it closed the stream. Every ack that was
+		// delivered before must be in the log before the teardown event (the receiver logs an
+		// ack after it received it), so wait for the receiver to finish.
+		select {
+		case <-ackDone:
+		case <-time.After(2 * time.Second):
+			p.w.Log.Add(Event{Kind: EvNote, Comp: p.spec.ID, Inst: p.inst, Src: p.idx, Seq: -1, Info: "teardown-before-stream-end"})
+		}
+	}
 	if p.opened {
 		p.st.mu.Lock()
 		p.st.open--
@@ -420,6 +439,10 @@ func (p *dstPlugin) outcomeFor(src, seq, piece int) Outcome {
 		o = p.spec.PerPiece[Key(src, seq, piece)]
 	}
 	if o == "" {
+		o = OutAck
+	}
+	if o == OutHold && p.inst > 1 {
+		// a plugin only hangs in its first run, so that a later restart can finish
 		o = OutAck
 	}
 	return o
